@@ -330,6 +330,19 @@ OcOf(r) == IF r.err = "none" THEN "ok" ELSE IF r.err = "ccf" THEN "ccf" ELSE "er
 OptItemIs(opt, S) ==   \* opt = [some, i] against a set S of at most one item
   IF S = {} THEN ~opt.some ELSE opt.some /\ \E i \in S : SameItem(opt.i, i)
 
+\* GetItem with a ProjectionExpression (top-level names e.proj): DynamoDB answers with the projected attributes only, the code
+\* at the pinned commit ignores the projection, the properties speak of neither: the answer may be anything between the
+\* projection of the stored item and the stored item itself - and, like every read, the call changes nothing
+ProjItemIs(opt, S, proj) ==
+  IF S = {} THEN ~opt.some
+  ELSE LET full == CHOOSE i \in S : TRUE
+           want == { proj[j] : j \in DOMAIN proj } \cap DOMAIN full
+       IN IF ~opt.some THEN want = {}
+          ELSE /\ DOMAIN opt.i \subseteq DOMAIN full
+               /\ want \subseteq DOMAIN opt.i
+               /\ \A k \in DOMAIN opt.i : SameValue(opt.i[k], full[k])
+HasProj(e) == "proj" \in DOMAIN e /\ e.proj # <<>>
+
 \* a sequence of items is an enumeration without repetition of the set S
 EnumOf(seq, S) == /\ Len(seq) = Cardinality(S)
                   /\ \A it \in S : \E i \in DOMAIN seq : SameItem(seq[i], it)
@@ -432,7 +445,7 @@ RespFails(db, e, r, sdk) ==
   \cup (IF oc = "err" /\ "err" \in pl.ocs /\ r.err # "crash" /\ r.err \notin pl.cls THEN {"ErrClass"} ELSE {})
   \cup (IF oc \notin pl.ocs THEN {}
         ELSE CASE e.op = "GetItem" /\ oc = "ok" ->
-                    IF OptItemIs(r.item, Lookup(tbl, e.key)) THEN {} ELSE {"Data"}
+                    IF (IF HasProj(e) THEN ProjItemIs(r.item, Lookup(tbl, e.key), e.proj) ELSE OptItemIs(r.item, Lookup(tbl, e.key))) THEN {} ELSE {"Data"}
                [] e.op = "UpdateItem" /\ oc = "ok" ->
                     IF r.attrs.some /\ \E i \in Lookup(pl.next[e.c].tables[e.t], e.key) : SameItem(r.attrs.i, i) THEN {} ELSE {"Data"}
                [] e.op = "DeleteItem" /\ oc = "ok" /\ e.retold ->
